@@ -1,6 +1,8 @@
 package main
 
 import (
+	"path/filepath"
+	"os"
 	"context"
 	"fmt"
 	"io"
@@ -256,6 +258,10 @@ func runC17(e *emitter, tier string, seed uint64) {
 // the server's copy (Server.TemplSource) is emitted as a history case.
 type c17Target struct{ lsp.Server }
 
+func (t *c17Target) Initialize(context.Context, *lsp.InitializeParams) (*lsp.InitializeResult, error) {
+	return &lsp.InitializeResult{ServerInfo: &lsp.ServerInfo{}}, nil
+}
+func (t *c17Target) Initialized(context.Context, *lsp.InitializedParams) error         { return nil }
 func (t *c17Target) DidOpen(context.Context, *lsp.DidOpenTextDocumentParams) error     { return nil }
 func (t *c17Target) DidChange(context.Context, *lsp.DidChangeTextDocumentParams) error { return nil }
 func (t *c17Target) DidClose(context.Context, *lsp.DidCloseTextDocumentParams) error   { return nil }
@@ -284,12 +290,33 @@ func c17Sessions(e *emitter, seed uint64) {
 		open    bool
 	}
 	for s := 0; s < 60; s++ {
-		srv := proxy.NewServer(quietLog, &c17Target{}, proxy.NewSourceMapCache(), proxy.NewDiagnosticCache(), true)
+		// every third session: a server that preloads the workspace at Initialize (the default); the file on disk holds
+		// something else than what the editor then opens (changed by git or a formatter, or an unsaved buffer)
+		preload := s%3 == 2
+		srv := proxy.NewServer(quietLog, &c17Target{}, proxy.NewSourceMapCache(), proxy.NewDiagnosticCache(), !preload)
 		ctx := lsp.WithClient(context.Background(), &c17Client{})
+		var preloadURIs []lsp.DocumentURI
+		if preload {
+			dir, err := os.MkdirTemp(workDir, "lspws")
+			if err != nil {
+				dir, err = os.MkdirTemp("", "lspws")
+			}
+			if err == nil {
+				defer os.RemoveAll(dir)
+				os.WriteFile(filepath.Join(dir, "hello.templ"), []byte("package main\n\ntempl onDisk() {\n\t<p>what is on disk</p>\n}\n"), 0o644)
+				os.WriteFile(filepath.Join(dir, "other.templ"), []byte("package main\n\ntempl other() {\n\t<i>o</i>\n}\n"), 0o644)
+				if _, ierr := srv.Initialize(ctx, &lsp.InitializeParams{WorkspaceFolders: []lsp.WorkspaceFolder{{URI: "file://" + dir, Name: "w"}}}); ierr == nil {
+					preloadURIs = []lsp.DocumentURI{lsp.DocumentURI("file://" + dir + "/hello.templ"), lsp.DocumentURI("file://" + dir + "/other.templ")}
+				}
+			}
+		}
 		for sub := 0; sub < 1+r.intn(3); sub++ {
 			uris := uriSets[0]
 			if r.chance(1, 2) {
 				uris = uriSets[1+r.intn(len(uriSets)-1)]
+			}
+			if preloadURIs != nil {
+				uris = preloadURIs[:1+r.intn(2)]
 			}
 			failed := ""
 			var docs []*odoc
